@@ -187,14 +187,37 @@ func ruleSweepStop(c *Ctx) {
 	sinfo := se.Info()
 	expires := c.Field("internal/collection", "Collection", "expires")
 	asc := false
+	var iterObj types.Object
 	ast.Inspect(se.Decl.Body, func(x ast.Node) bool {
 		if call, ok := x.(*ast.CallExpr); ok {
 			if s, ok := ast.Unparen(call.Fun).(*ast.SelectorExpr); ok && selField(sinfo, s.X) == expires {
 				asc = s.Sel.Name == "Scan" || s.Sel.Name == "Ascend"
+				if s.Sel.Name == "Iter" {
+					// it := c.expires.Iter(): the direction is decided by how the iterator is driven
+					if as, ok := c.Parent(call).(*ast.AssignStmt); ok && len(as.Lhs) == 1 {
+						if id, ok := as.Lhs[0].(*ast.Ident); ok {
+							iterObj = sinfo.ObjectOf(id)
+						}
+					}
+				}
 			}
 		}
 		return true
 	})
+	if iterObj != nil {
+		used := map[string]bool{}
+		ast.Inspect(se.Decl.Body, func(x ast.Node) bool {
+			if call, ok := x.(*ast.CallExpr); ok {
+				if s, ok := ast.Unparen(call.Fun).(*ast.SelectorExpr); ok {
+					if id, ok := ast.Unparen(s.X).(*ast.Ident); ok && sinfo.ObjectOf(id) == iterObj {
+						used[s.Sel.Name] = true
+					}
+				}
+			}
+			return true
+		})
+		asc = used["First"] && used["Next"] && !used["Last"] && !used["Prev"] && !used["Seek"]
+	}
 	c.check(asc, "ScanExpires-ascending", se.Decl.Pos(), "ScanExpires iterates the expiry index in ascending order", "ScanExpires does not iterate the expiry index in ascending order")
 	// (d) sweepers: whichever functions iterate the expiry indexes (found by the call, not by name)
 	hookExpires := c.Field("internal/server", "Server", "hookExpires")
@@ -338,7 +361,14 @@ func ruleSweepStop(c *Ctx) {
 			}
 			isContinue := func(l Loc) bool {
 				r, ok := l.Node.(*ast.ReturnStmt)
-				return ok && (len(r.Results) != 1 || boolConst(finfo, r.Results[0]) != '0')
+				if !ok {
+					return false
+				}
+				if len(r.Results) != 1 {
+					return true
+				}
+				// `return expired`: the value the flag has on this path (facts carried by the search)
+				return lfg.eval3(r.Results[0], lfg.curFacts) != '0'
 			}
 			okStop, okCollect := false, false
 			if hasAtom {
